@@ -269,6 +269,33 @@ func genC20Fee(rep *Report, seed uint64, tier string, outdir string) {
 			node, chain = amtVec{new(big.Int), nil, nil}, amtVec{nil, new(big.Int), nil}
 		case k == 2: // the module's default: chain 0.15, node nothing
 			node, chain = make(amtVec, 3), amtVec{big.NewInt(150000000000000000), nil, nil}
+		// raw vectors with explicit zero-priced entries (not the sanitised NewDecCoins form): a zero
+		// entry is no floor.  The combined vector stays non-empty and all-zero only when the node's
+		// vector is all-zero and no chain entry is added (every DecCoins.Add drops zero entries).
+		case k == 3:
+			node, chain = amtVec{new(big.Int), nil, nil}, make(amtVec, 3)
+		case k == 4:
+			node, chain = amtVec{new(big.Int), new(big.Int), new(big.Int)}, make(amtVec, 3)
+		case k == 5: // zero in the node, positive in the chain for the same denom
+			node, chain = amtVec{new(big.Int), nil, new(big.Int)}, amtVec{big.NewInt(2500000000000000000), nil, nil}
+		case k == 6: // positive in the node, zero in the chain for the same denom; a zero-only denom besides
+			node, chain = amtVec{big.NewInt(150000000000000000), new(big.Int), nil}, amtVec{new(big.Int), nil, new(big.Int)}
+		case k == 7: // zero entries mixed with positive ones on one side only
+			node, chain = amtVec{new(big.Int), big.NewInt(1), new(big.Int)}, make(amtVec, 3)
+		case k%8 == 5: // random all-zero node vectors, chain empty or all-zero
+			node = c20RandVec(r, vals, 30, 70)
+			for i := range node {
+				if node[i] != nil {
+					node[i] = new(big.Int)
+				}
+			}
+			if node[0] == nil && node[1] == nil && node[2] == nil {
+				node[r.Intn(3)] = new(big.Int)
+			}
+			chain = make(amtVec, 3)
+			if r.Bool() {
+				chain[r.Intn(3)] = new(big.Int)
+			}
 		case k%4 == 3: // same denoms on both sides, different prices (min-for-max shows here)
 			node, chain = c20RandVec(r, vals, 10, 5), c20RandVec(r, vals, 10, 5)
 		default:
@@ -373,6 +400,13 @@ func genC20Fee(rep *Report, seed uint64, tier string, outdir string) {
 					sig, what = "C20:fee-enforced-outside-check", "rejected outside transaction checking: "+res.Err
 				} else if want {
 					sig, what = "C20:fee-rejected-at-or-above-floor", "rejected although a denom with a positive floor carries the required fee: "+res.Err
+					noFloor := true
+					for i := range c20Denoms {
+						noFloor = noFloor && node.get(i).Sign() == 0 && chain.get(i).Sign() == 0
+					}
+					if noFloor {
+						sig, what = "C20:fee-rejected-without-floor", "rejected although every floor price is zero (explicit zero-priced entries are no floor): "+res.Err
+					}
 				}
 				rep.Violate(Violation{Case: id, Step: qi + 1, What: what, Sig: sig, Ops: []string{desc, "query (mode, gas, fee) = " + q.Coq()}})
 			}
